@@ -52,6 +52,17 @@ def merge(prop, exact, log_a, log_b, result_fields: dict | None, excuses: dict |
     return ev
 
 
+def strip_cached(pts, x):
+    """Log of a restarted run without its leading evaluations at the checkpoint's own point x: when the algorithm asks
+    for the value or gradient at the current iterate (a zero-length trial step), the uninterrupted run is served from
+    the wrapper's cache (no user call) whereas the restarted run, whose wrapper is new, evaluates."""
+    k = 0
+    xb = np.asarray(x, float)
+    while k < len(pts) and np.array_equal(np.asarray(pts[k][1], float), xb):
+        k += 1
+    return pts[k:]
+
+
 def result_fields(ra, rb, exact=True, rtol=1e-7, pairs=True):
     """Field-by-field comparison of two OptimizeResults."""
     def eq(a, b):
